@@ -768,6 +768,9 @@ func (ex *Explorer) RunPath(prefix []Dec) (outcome string) {
 				return
 			case targetPanic:
 				outcome = "panic: " + toString(r.v) + " @ " + ex.panicWhere
+			case *runtime.TypeAssertionError:
+				// a dynamic-type confusion inside the interpreter itself: an engine gap, not a verdict
+				outcome = "engine: " + r.Error() + " @ " + ex.panicWhere
 			case runtime.Error:
 				outcome = "panic: " + r.Error() + " @ " + ex.panicWhere
 				if os.Getenv("VERIF_DEBUG") != "" {
